@@ -302,38 +302,72 @@ def check_count_routes(prog, rep, rule='R6.6'):
 
 
 def check_floor_split(prog, rep, rule='R6.3'):
-    # ------------------------------------------------------------------ R6.3 floor split
+    """time_point / duration with a sub-second period -> CBinTimestamp, interpreted over linear forms (rules/chronolin.py) with the source
+    count X ranging over its whole representation: on every path  0 <= Nanoseconds <= 999999999,  Seconds * 10^9 + Nanoseconds is exactly the
+    source value in nanoseconds, and no signed operation (including the conversions std::chrono performs) leaves its type."""
+    from fractions import Fraction
+    from rules import chronolin as CL
+    from bsv.linear import Lin, entails, eq, le
     n63 = 0
     for f in sorted(prog.funcs.values(), key=lambda x: x.id):
         if f.q != 'BitSerializer::Detail::To' or not f.params or 'CBinTimestamp &' not in f.tu['types'][f.params[-1]['t']] \
-                or f.tu['types'][f.params[-1]['t']].startswith('const'):
+                or f.tu['types'][f.params[-1]['t']].startswith('const') or f.body is None:
             continue
+        src = CL.duration_of(f.tu['types'][f.params[0]['t']])
+        if src is None:
+            raise AnalysisBroken(rule + ': source type of %s is not a duration / time_point' % f.id[:100])
         rep.touch(f)
-        stores = []
-        for n in live_walk(f):
-            if n['k'] == 'BinaryOperator' and n.get('op') == '=':
-                lhs = strip(n['c'][0])
-                if lhs is not None and lhs['k'] == 'MemberExpr' and lhs.get('m') == 'Seconds':
-                    stores.append(n)
-        if not stores:
-            raise AnalysisBroken(rule + ': no store to CBinTimestamp::Seconds found in %s' % f.id)
-        subsecond = any(n['k'] == 'BinaryOperator' and n.get('op') == '=' and (strip(n['c'][0]) or {}).get('m') == 'Nanoseconds'
-                        and 'cv' not in n['c'][1] for n in live_walk(f))
-        if not subsecond:
-            continue   # period >= seconds: nanoseconds is the constant 0
+        if src[1] >= 1:
+            continue   # period >= seconds: SafeDurationCast, nanoseconds is the constant 0 (C15 R15.1)
         n63 += 1
-        for st in stores:
-            producers = [strip_targs(f.callee(x)['q']) for x in f.walk(st['c'][1]) if x['k'] == 'CallExpr' and f.callee(x) is not None]
-            fl = any(p == 'std::chrono::floor' for p in producers)
-            adjusted = has_negative_adjustment(f)
-            site = '%s|%s' % (f.pq, 'time_point' if 'time_point' in f.id else 'duration')
-            if fl or adjusted:
-                rep.ok(rule, site, sample={'function': f.id[:150], 'seconds_from': producers, 'negative_remainder_adjustment': adjusted})
-            else:
-                rep.finding(rule, site, f.loc(st),
-                            'seconds are taken with %s (truncation toward zero): for instants before the epoch with a sub-second part the '
-                            'nanoseconds field becomes negative (spec: 0..999999999)' % (', '.join(p for p in producers if 'chrono' in p) or 'a truncating cast'),
-                            {'instantiation': f.id}, func=f.id)
+        k = Fraction(1) / src[1]
+        if k.denominator != 1 or (10 ** 9) % k.numerator:
+            raise AnalysisBroken(rule + ': sub-second period %s of %s is not a decimal fraction of a second' % (src[1], f.id[:100]))
+        k = k.numerator
+        model = CL.ChronoModel(CL.rep_range(src[0]))
+
+        def setup(it, fr):
+            fr.env[f.params[0]['d']] = CL.X
+            fr.alias[f.params[-1]['d']] = 'OUT'
+        site = '%s|%s|%s x %s' % (f.pq, 'time_point' if 'time_point' in f.id else 'duration', src[0], src[1])
+        bad = None
+        for p in CL.run(prog, f, model, setup):
+            cons = list(p.facts or [])
+            for lab, d in p.guards:
+                if isinstance(lab, tuple) and lab and lab[0] == 'LIN':
+                    from bsv.linmodel import rel, NEG
+                    r = rel(lab[1] if d else NEG[lab[1]], lab[2], lab[3])
+                    if r:
+                        cons.extend(r)
+            from bsv.linear import unsat
+            if unsat(cons):
+                continue
+            ov = [a for a in p.actions if a[0] in ('OVERFLOW',)]
+            if ov:
+                bad = bad or (ov[0][2], '%s leaves the type %s for some source value (the expression is %s with X the source count in [%d, %d]): signed overflow - '
+                              'undefined behaviour for values within one second of the most negative representable one' % (ov[0][1], ov[0][4], ov[0][3], model.xrange[0], model.xrange[1]))
+                continue
+            if p.outcome[0] == 'THROW':
+                bad = bad or (f.loc(), 'throws %s for a representable value' % p.outcome[1])
+                continue
+            sec, ns = Lin.of(p.store.get('OUT.Seconds')), Lin.of(p.store.get('OUT.Nanoseconds'))
+            if sec is None or ns is None:
+                bad = bad or (f.loc(), 'Seconds / Nanoseconds are not stored as values derived from the source (%s, %s)' % (p.store.get('OUT.Seconds'), p.store.get('OUT.Nanoseconds')))
+                continue
+            if not (entails(cons, [le(0, ns)]) and entails(cons, [le(ns, 999999999)])):
+                bad = bad or (f.loc(), 'the nanoseconds field (%s) is not confined to 0..999999999: instants before the epoch with a sub-second part get a '
+                              'negative nanoseconds field (truncation toward zero instead of rounding toward minus infinity)' % (ns,))
+                continue
+            if not all(entails(cons, [c_]) for c_ in eq(sec.scale(10 ** 9) + ns, CL.X.scale(10 ** 9 // k))):
+                bad = bad or (f.loc(), 'Seconds * 10^9 + Nanoseconds (%s, %s) is not the source value' % (sec, ns))
+                continue
+            if any(a[0] == 'WRAPCAST' for a in p.actions):
+                w = [a for a in p.actions if a[0] == 'WRAPCAST'][0]
+                bad = bad or (w[2], 'conversion to %s changes the value %s' % (w[1], w[3]))
+        if bad:
+            rep.finding(rule, site, bad[0], '%s: %s' % (site, bad[1]), {'instantiation': f.id}, func=f.id)
+        else:
+            rep.ok(rule, site, sample={'function': f.id[:150], 'source': '%s x %s' % src, 'proved': 'no overflow; 0 <= ns <= 999999999; sec*10^9 + ns == value'})
     if n63 == 0:
         raise AnalysisBroken(rule + ': no sub-second instantiation of To(time_point|duration -> CBinTimestamp) in the analysed program')
 
